@@ -136,6 +136,27 @@ Proof.
   - intros c k r H. rewrite Hg in H. rewrite Hc. apply (Hw c k r H).
 Qed.
 
+(* a transaction that rolls back spends a timestamp and nothing else *)
+Lemma burn_views_inv s x : views_inv s -> views_inv (burn s x).
+Proof.
+  intros Hinv. pose proof Hinv as [Ht Hs Hv Hc Hw].
+  apply (views_inv_same_data s); try reflexivity; [apply burn_tables_ok; exact Ht | apply burn_ok; exact Hs | | exact Hv | exact Hinv].
+  cbn. pose proof (hlc_now_gt (s_high s) (x_clock x)). lia.
+Qed.
+
+Lemma expire_keys_chk_views_inv x cid keys : forall s acc, In cid (coll_ids s) -> views_inv s ->
+  views_inv (fst (expire_keys_chk s x cid keys acc)) /\ coll_ids (fst (expire_keys_chk s x cid keys acc)) = coll_ids s.
+Proof.
+  induction keys as [|k r IH]; intros s acc Hc Hs; cbn [expire_keys_chk]; [split; [exact Hs | reflexivity]|].
+  destruct (is_due (get_doc s (cid, k)) (x_now x)).
+  - destruct (IH (sr_store (kv_on s x cid k KDelete)) (acc ++ sr_events (kv_on s x cid k KDelete))) as [A B].
+    + rewrite kv_on_ids. exact Hc.
+    + apply kv_on_views_inv; [exact I | exact Hc | exact Hs].
+    + split; [exact A | rewrite B; apply kv_on_ids].
+  - destruct (IH (burn s x) acc Hc (burn_views_inv s x Hs)) as [A B]. split; [exact A | rewrite B; reflexivity].
+Qed.
+
+
 (* ---- purge ---- *)
 Lemma existsb_alookup (k : dkey) (m : list (dkey * row)) :
   existsb (fun d : dkey * row => dkey_eqb (fst d) k) m = is_some (alookup dkey_eqb k m).
@@ -294,6 +315,17 @@ Proof.
     pose proof Hinv as [Ht Hs Hv Hc Hw].
     apply (views_inv_same_data s); try reflexivity; [apply (sstep_tables_ok s x (SDraw coll key op b) Ht) | apply (sstep_ok s x (SDraw coll key op b) I Hs) | | exact Hv | exact Hinv].
     cbn. destruct (_ =? 0); [lia|]. pose proof (hlc_now_gt (s_high s) (x_clock x)). lia.
+  - (* a sweep, as far as collection wc *)
+    cbn [sstep]. destruct (coll_id s wc); [|exact Hinv].
+    pose proof (expire_colls_views_inv x (ids_before (s_colls s) wc) s [] (fun c H => ids_before_in _ _ _ H) Hinv) as H.
+    destruct (expire_colls s x (ids_before (s_colls s) wc) []) as [s' evs]. exact H.
+  - (* ... and the rest of it *)
+    cbn [sstep]. destruct (coll_id s wc) as [w|] eqn:Ew; [|exact Hinv].
+    destruct (expire_keys_chk_views_inv x w keys s [] (coll_id_in_ids _ _ _ Ew) Hinv) as [A B].
+    destruct (expire_keys_chk s x w keys []) as [s1 evs1]. cbn [fst] in A, B.
+    pose proof (expire_colls_views_inv x (ids_after (s_colls s) wc) s1 evs1) as H.
+    destruct (expire_colls s1 x (ids_after (s_colls s) wc) evs1) as [s2 evs2]. cbn [sr_store fst] in *. apply H; [|exact A].
+    intros c Hc. rewrite B. exact (ids_after_in _ _ _ Hc).
 Qed.
 
 Lemma store0_views_inv : views_inv store0.
